@@ -364,7 +364,8 @@ def check_utc(ctx):
             if rn in ("datetime.datetime.utcfromtimestamp", "calendar.timegm"):
                 n += 1
                 ctx.ob("C11.4", qual, True, "UTC API %s" % rn, nontrivial=False)
-    ctx.need(n >= 15, "fewer than 15 UTC conversion sites found (%d)" % n)
+    # confirmed count of UTC conversion sites (a positively identified violation elsewhere is reported rather than pre-empted)
+    ctx.need(n >= 15 or bool(ctx.findings), "fewer than 15 UTC conversion sites found (%d)" % n)
     ctx.control("C11.4", "datetime.datetime.fromtimestamp" in LOCAL_TIME_API, "local-time API list armed")
 
 
@@ -379,8 +380,21 @@ def check_conversions(ctx):
     mo = form.apply("mod", [form.apply("floordiv", [d, Rat.const(100)]), Rat.const(100)])
     da = form.apply("mod", [d, Rat.const(100)])
     want = form.apply("call:calendar.timegm", [form.apply("m:timetuple", [form.apply("call:datetime.datetime", [y, mo, da])])])
-    ctx.ob("C11.5", "verif.util.date_to_unixtime", len(outs) == 1 and outs[0].value.equals(want), "YYYYMMDD decomposed with 10000/100 and converted with timegm (UTC)",
-           loc=prog.loc(m, f), msg="date_to_unixtime computes %s" % [str(o.value)[:200] for o in outs])
+    ok = len(outs) == 1 and isinstance(outs[0].value, Rat) and outs[0].value.equals(want)
+    if not ok and not any(isinstance(o.value, Rat) and q.atoms(o.value, "call:calendar.timegm") for o in outs):
+        # a hand-written day count: decidable only through its leap-year rule.  Every-4th-year is wrong for 1900 and 2100.
+        src = " ".join(o.value.key() for o in outs if isinstance(o.value, Rat)) + " " + " ".join(c_.key() for o in outs for c_, _ in o.conds if isinstance(c_, Rat))
+        four = "mod(" in src and ",4)" in src or "floordiv(" in src and ",4)" in src
+        century = ",100)" in src and ",400)" in src
+        if four and not century:
+            ctx.ob("C11.5", "verif.util.date_to_unixtime", False, "YYYYMMDD -> unix time follows the Gregorian calendar for 1900-2100", loc=prog.loc(m, f),
+                   msg="date_to_unixtime counts days with its own arithmetic and a leap year every 4th year (no century rule): dates before 1 March 1900 "
+                       "and from 1 March 2100 are off by one day, and no longer invert unixtime_to_date")
+        else:
+            raise AnalysisError("verif.util.date_to_unixtime uses calendar arithmetic of its own that this analysis cannot decide: %s" % src[:160])
+    else:
+        ctx.ob("C11.5", "verif.util.date_to_unixtime", ok, "YYYYMMDD decomposed with 10000/100 and converted with timegm (UTC)",
+               loc=prog.loc(m, f), msg="date_to_unixtime computes %s" % [str(o.value)[:200] for o in outs])
     f = prog.func("verif.util.unixtime_to_date")
     outs = [o for o in symeval.Evaluator(m).run(f) if o.kind == "return"]
     dt = form.apply("call:datetime.datetime.utcfromtimestamp", [form.apply("int", [S("unixtime")])])
@@ -415,8 +429,8 @@ def run(ctx):
     check_axis_values(ctx, order)
     check_init_cache(ctx)
     check_buckets(ctx)
-    check_utc(ctx)
     check_conversions(ctx)
+    check_utc(ctx)
     from . import c03
     sub = type(ctx)(ctx.prog, "C03", ctx.tier, True)
     c03.check_init(sub)
